@@ -93,7 +93,7 @@ func (b *ideal) bound(now time.Time) *big.Rat {
 
 type rlEvent struct {
 	Adv  int    `json:"adv"` // index into rlAdvances
-	Kind string `json:"kind"` // req | op
+	Kind string `json:"kind"` // req | op | close (the connection ends; the next request of this slot comes on a new connection)
 	IP   int    `json:"ip"`
 	Conn int    `json:"conn"`
 	Op   int    `json:"op"`
@@ -128,10 +128,12 @@ func genRL(abusive bool) func(t *rapid.T) rlCase {
 		}
 		n := rapid.IntRange(5, 80).Draw(t, "n")
 		for i := 0; i < n; i++ {
-			ev := rlEvent{Adv: rapid.IntRange(0, len(rlAdvances)-1).Draw(t, "adv"), Kind: pick(t, "kind", "req", "req", "req", "op"),
+			ev := rlEvent{Adv: rapid.IntRange(0, len(rlAdvances)-1).Draw(t, "adv"), Kind: pick(t, "kind", "req", "req", "req", "req", "req", "req", "op", "op", "close"),
 				IP: rapid.IntRange(0, 3).Draw(t, "ip"), Conn: rapid.IntRange(0, 2).Draw(t, "conn"), Op: rapid.IntRange(0, 3).Draw(t, "op")}
 			if abusive {
-				ev.Kind = "req"
+				if ev.Kind != "close" {
+					ev.Kind = "req"
+				}
 				if rapid.IntRange(0, 9).Draw(t, "flood") < 6 {
 					ev.IP, ev.Adv = 0, rapid.IntRange(0, 3).Draw(t, "fadv") // the abusive client: many arrivals, tiny gaps
 				} else if ev.IP == 0 {
@@ -160,11 +162,18 @@ func rlRun(c rlCase, cleanup time.Duration, start time.Time) []bool {
 	vclockMu.Unlock()
 	rl := absnfs.NewRateLimiter(c.config(cleanup))
 	out := make([]bool, len(c.Events))
+	connGen := map[string]int{}
 	for i, ev := range c.Events {
 		vadvance(rlAdvances[ev.Adv])
 		ip := fmt.Sprintf("10.0.0.%d", ev.IP)
-		if ev.Kind == "req" {
-			out[i] = rl.AllowRequest(ip, fmt.Sprintf("conn-%d-%d", ev.IP, ev.Conn))
+		slot := fmt.Sprintf("%d-%d", ev.IP, ev.Conn)
+		if ev.Kind == "close" {
+			// the connection handler's exit path; connection ids are never reused by the server
+			rl.CleanupConnection(fmt.Sprintf("conn-%s-g%d", slot, connGen[slot]))
+			connGen[slot]++
+			out[i] = true
+		} else if ev.Kind == "req" {
+			out[i] = rl.AllowRequest(ip, fmt.Sprintf("conn-%s-g%d", slot, connGen[slot]))
 		} else {
 			out[i] = rl.AllowOperation(ip, rlOps[ev.Op])
 		}
@@ -187,11 +196,20 @@ func runRL(tb stat.TB, c rlCase, id, check string) {
 	compliant := map[int]bool{}
 	sawRefusal, admittedAfterRefusal := false, false
 	abusiveRefused, compliantAfterAbuse := false, false
+	closes := 0
 	opRates := []float64{float64(c.RL), float64(c.WL), float64(c.RD), float64(c.MountPM) / 60}
 	for i, ev := range c.Events {
 		now = now.Add(rlAdvances[ev.Adv])
 		got := dec[i]
 		what := fmt.Sprintf("event#%d %s ip=%d conn=%d op=%d at +%v", i, ev.Kind, ev.IP, ev.Conn, ev.Op, now.Sub(start))
+		if ev.Kind == "close" {
+			// a new connection starts with a full bucket of its own
+			slot := fmt.Sprintf("%d-%d", ev.IP, ev.Conn)
+			delete(perConn, slot)
+			delete(admConn, slot)
+			closes++
+			continue
+		}
 		if !got {
 			sawRefusal = true
 		} else if sawRefusal {
@@ -306,6 +324,9 @@ func runRL(tb stat.TB, c rlCase, id, check string) {
 				break
 			}
 		}
+	}
+	if closes > 0 {
+		stat.Label("connection_closed_and_reopened", 1)
 	}
 	nt := sawRefusal && admittedAfterRefusal
 	if id == "C19" {
